@@ -46,7 +46,7 @@ def boot(rf, leader=0, others=(), revs=None, fs_start=None):
 def add(a, verify=True):
     es = [ev("addcheck", a=a), ev("addcommit", a=a)]
     if verify:
-        es.append(ev("verify", a=a))
+        es += [ev("syncdata", a=a), ev("verify", a=a)]
     return es
 
 
@@ -102,6 +102,8 @@ class Gen:
             return ev("addcheck", a=a, fs=self.io_faults([a], 0.1, ("http",)) + self.io_faults(allr, 0.05, ("rev",)))
         if x < 0.57:
             return ev("addcommit", a=a, fs=self.io_faults(allr, 0.08, ("snap", "create", "setmodewo", "chain", "setcp")))
+        if x < 0.60:
+            return ev("syncdata", a=a)
         if x < 0.67:
             return ev("verify", a=a, fs=self.io_faults(allr, 0.06, ("http", "rev", "setmoderw", "setrev", "setcp", "chain")))
         if x < 0.72:
@@ -210,6 +212,8 @@ def ev_term(e, ob=None):
         return "Snapshot %s %s" % (n(e["name"]), fs)
     if k == "resize":
         return "Resize %s %s" % (z(e["size"]), fs)
+    if k == "syncdata":
+        return "SyncData %s" % n(e["a"])
     raise ValueError(e)
 
 
@@ -254,6 +258,24 @@ def case_term(c, out):
     obs = "; ".join(obs_term(o) for o in out["obs"])
     quiet = "; ".join("true" if o.get("pending", 0) == 0 else "false" for o in out["obs"])
     return "mkxcase (mkcase %s %s %s [%s] [%s]) [%s]" % (n(c["rf"]), n(len(c["world"])), world_term(c["world"]), evs, obs, quiet)
+
+
+def autosync(cases):
+    """insert the sync agent's copy before every verify (what a real rebuild does) unless the verify is
+    marked nosync (histories that test the chain comparison itself)"""
+    for c in cases:
+        if c.get("_synced"):
+            continue
+        out = []
+        for e in c["events"]:
+            if e["k"] == "verify" and not e.get("nosync"):
+                prev = out[-1] if out else None
+                if not (prev and prev["k"] == "syncdata" and prev["a"] == e["a"]):
+                    out.append(ev("syncdata", a=e["a"]))
+            out.append(e)
+        c["events"] = out
+        c["_synced"] = True
+    return cases
 
 
 def run_cases(ctx, binpath, cases, tag="ctl", queries=None, workers=12):
@@ -349,7 +371,8 @@ def scenarios():
               boot(2, 0, []) + [ev("addcheck", a=1), ev("addcommit", a=1), ev("verify", a=1, fs=fl((0, "setcp")))]))
     # rebuild chain verification
     S.append(("verify-chain-mismatch", 2, 2,
-              dict(world=world(2, chains={1: [77]}), events=boot(2, 0, []) + [ev("addcheck", a=1), ev("addcommit", a=1), ev("verify", a=1)])))
+              dict(world=world(2, chains={1: [77]}), events=boot(2, 0, []) + [ev("addcheck", a=1), ev("addcommit", a=1), ev("verify", a=1, nosync=True)])))
+    S.append(("verify-without-sync", 3, 3, boot(3, 0, [1]) + [ev("addcheck", a=2), ev("addcommit", a=2), ev("verify", a=2, nosync=True), ev("read", off=0, len=4096)]))
     # resize
     S.append(("resize", 2, 2, boot(2, 0, [1]) + [ev("resize", size=SIZE), ev("resize", size=SIZE // 2), ev("resize", size=2 * SIZE, fs=fl((1, "resize"))),
                                                   ev("write", wid=1, off=SIZE, len=4096), ev("monfire", a=1), ev("resize", size=4 * SIZE)]))
